@@ -443,6 +443,71 @@ func runAsm(m *model.Model, s *ob.Set) {
 		}
 	}
 
+	// ---- A5e': index and count registers in step at every label
+	for _, t := range f.texts {
+		bad, np := asmCounterRule(t)
+		if np == 0 {
+			continue
+		}
+		c := "counter/" + t.name
+		if len(bad) == 0 {
+			s.Ok(R, c, rel(t), fmt.Sprintf("%d index/count pair(s): every label is entered with the same offset between them from all sides", np))
+		} else {
+			s.Bad(R, c, rel(t), bad[0], bad[1:]...)
+		}
+	}
+
+	// ---- A5e'': a word-by-word division writes quotient words that come from the division
+	// (every assembly file of the configuration, the binary kernels taken over from math/big too)
+	for _, ap := range m.AsmFiles {
+		af := parseAsm(m, ap)
+		for _, t := range af.texts {
+			hasDiv := false
+			for _, in := range t.instrs {
+				if in.op == "DIVQ" {
+					hasDiv = true
+				}
+			}
+			if !hasDiv {
+				continue
+			}
+			// the destination pointer: loaded from z+0(FP)
+			zreg := ""
+			for _, in := range t.instrs {
+				if in.op == "MOVQ" && len(in.args) == 2 && in.args[0] == "z+0(FP)" {
+					zreg = in.args[1]
+				}
+			}
+			if zreg == "" {
+				continue
+			}
+			bad, nst := "", 0
+			testsRem := false
+			for _, in := range t.instrs {
+				if (in.op == "TESTQ" && len(in.args) == 2 && in.args[0] == "DX" && in.args[1] == "DX") || (in.op == "CMPQ" && len(in.args) == 2 && (in.args[0] == "DX" || in.args[1] == "DX")) {
+					testsRem = true
+				}
+			}
+			for _, in := range t.instrs {
+				if in.op != "MOVQ" || len(in.args) != 2 {
+					continue
+				}
+				mm := reMem.FindStringSubmatch(in.args[1])
+				if mm == nil || mm[2] != zreg {
+					continue
+				}
+				nst++
+				if strings.HasPrefix(in.args[0], "$") && !testsRem {
+					bad = fmt.Sprintf("%s:%d: a quotient word is stored as the constant %s, in a routine that never looks at the running remainder (DX): a dividend word of 0 gives a quotient word of 0 only when the remainder that comes in from above is 0 too", filepath.Base(ap), in.line, in.args[0])
+				}
+			}
+			if nst == 0 {
+				continue
+			}
+			s.Check(bad == "", R, "divskip/"+t.name, fmt.Sprintf("%s:%d", filepath.Base(ap), t.line), fmt.Sprintf("%d store(s) of quotient words, none a constant written without regard to the remainder", nst), bad)
+		}
+	}
+
 	// ---- A5f: the base reduction is on every path of the scalar routines that contain it
 	for _, t := range f.texts {
 		bad, ok := asmDivCore(t)
@@ -917,11 +982,11 @@ func runAsmPure(m *model.Model, s *ob.Set) {
 			}
 		}
 		switch {
-		case ncalls != 1 || call.Call.StaticCallee() == nil:
+		case ncalls != 1 || model.Unthunk(call.Call.StaticCallee()) == nil:
 			why = "the wrapper must consist of exactly one static call"
-		case call.Call.StaticCallee().Name() != n+"_g":
-			why = "the wrapper calls " + call.Call.StaticCallee().Name() + ", not " + n + "_g"
-		case !types.Identical(call.Call.StaticCallee().Signature, fn.Signature):
+		case model.Unthunk(call.Call.StaticCallee()).Name() != n+"_g":
+			why = "the wrapper calls " + model.Unthunk(call.Call.StaticCallee()).Name() + ", not " + n + "_g"
+		case !types.Identical(model.Unthunk(call.Call.StaticCallee()).Signature, fn.Signature):
 			why = "signature of " + n + "_g differs from the wrapper's"
 		default:
 			for i, a := range call.Call.Args {
